@@ -126,6 +126,77 @@ macro_rules! debug_core {
     };
 }
 
+/// Concrete-values variants of the Debug checks: two objects with fixed, different key / IV / data
+/// (positions stay symbolic).  If a Debug impl starts printing state, formatting SYMBOLIC bytes is very
+/// expensive (the symbolic variant then times out = inconclusive); these variants stay cheap and give a
+/// definite, replayable violation.  The uninterpreted cipher's outputs remain symbolic.
+macro_rules! debugc_block {
+    ($name:ident, $unw:expr, $ty:ty, $dir:ident, $ivbs:ty, $ivlen:expr, $mbs:ty, $mb:expr) => {
+        #[kani::proof]
+        #[kani::unwind($unw)]
+        pub fn $name() {
+            let k1: [u8; 2] = [0x11, 0x22];
+            let k2: [u8; 2] = [0xa5, 0x5a];
+            let iv1: [u8; $ivlen] = [0x31; $ivlen];
+            let iv2: [u8; $ivlen] = [0xc7; $ivlen];
+            let mut d1: [u8; $mb] = [0x0f; $mb];
+            let mut d2: [u8; 2 * $mb] = [0xf0; 2 * $mb];
+            let mut m1 = <$ty>::new(&k1.into(), blk::<$ivbs>(&iv1));
+            let mut m2 = <$ty>::new(&k2.into(), blk::<$ivbs>(&iv2));
+            // (fresh objects: nothing processed, so every state byte is a concrete constant)
+            let _ = (&mut d1, &mut d2);
+            let (s1, s2) = (fmt_debug(&m1), fmt_debug(&m2));
+            same_text(&s1, &s2);
+            kani::cover!(true);
+        }
+    };
+}
+
+macro_rules! debugc_bytes {
+    ($name:ident, $unw:expr, $ty:ty, $call:ident, $ivbs:ty, $ivlen:expr, $n1:expr, $n2:expr) => {
+        #[kani::proof]
+        #[kani::unwind($unw)]
+        pub fn $name() {
+            let k1: [u8; 2] = [0x11, 0x22];
+            let k2: [u8; 2] = [0xa5, 0x5a];
+            let iv1: [u8; $ivlen] = [0x31; $ivlen];
+            let iv2: [u8; $ivlen] = [0xc7; $ivlen];
+            let mut d1: [u8; $n1] = [0x0f; $n1];
+            let mut d2: [u8; $n2] = [0xf0; $n2];
+            let mut m1 = <$ty>::new(&k1.into(), blk::<$ivbs>(&iv1));
+            let mut m2 = <$ty>::new(&k2.into(), blk::<$ivbs>(&iv2));
+            let _ = (&mut d1, &mut d2);
+            let (s1, s2) = (fmt_debug(&m1), fmt_debug(&m2));
+            same_text(&s1, &s2);
+            kani::cover!(true);
+        }
+    };
+}
+
+macro_rules! debugc_core {
+    ($name:ident, $unw:expr, $ty:ty, $ct:ty, $ivbs:ty, $ivlen:expr) => {
+        #[kani::proof]
+        #[kani::unwind($unw)]
+        pub fn $name() {
+            let k1: [u8; 2] = [0x11, 0x22];
+            let k2: [u8; 2] = [0xa5, 0x5a];
+            let iv1: [u8; $ivlen] = [0x31; $ivlen];
+            let iv2: [u8; $ivlen] = [0xc7; $ivlen];
+            let mut m1 = <$ty>::new(&k1.into(), blk::<$ivbs>(&iv1));
+            let mut m2 = <$ty>::new(&k2.into(), blk::<$ivbs>(&iv2));
+            let p1: $ct = kani::any();
+            let p2: $ct = kani::any();
+            m1.set_block_pos(p1);
+            m2.set_block_pos(p2);
+            let mut b: [u8; $ivlen] = [0x3c; $ivlen];
+            let _ = &mut b;
+            let (s1, s2) = (fmt_debug(&m1), fmt_debug(&m2));
+            same_text(&s1, &s2);
+            kani::cover!(true);
+        }
+    };
+}
+
 /// Algorithm name text: no `self`, so only its well-formedness is checked.
 struct AlgName<T>(core::marker::PhantomData<T>);
 impl<T: cipher::AlgorithmName> core::fmt::Display for AlgName<T> {
@@ -287,25 +358,45 @@ type F2 = Uf<U2, U1>;
 
 // ---- quick -----------------------------------------------------------------------------------
 debug_block!(dbg_cbc_enc, 210, cbc::Encryptor<F2>, enc, U2, 2, U2, 2);
+debugc_block!(dbgc_cbc_enc, 210, cbc::Encryptor<F2>, enc, U2, 2, U2, 2);
 debug_block!(dbg_cbc_dec, 210, cbc::Decryptor<F2>, dec, U2, 2, U2, 2);
+debugc_block!(dbgc_cbc_dec, 210, cbc::Decryptor<F2>, dec, U2, 2, U2, 2);
 debug_block!(dbg_pcbc_enc, 210, pcbc::Encryptor<F2>, enc, U2, 2, U2, 2);
+debugc_block!(dbgc_pcbc_enc, 210, pcbc::Encryptor<F2>, enc, U2, 2, U2, 2);
 debug_block!(dbg_pcbc_dec, 210, pcbc::Decryptor<F2>, dec, U2, 2, U2, 2);
+debugc_block!(dbgc_pcbc_dec, 210, pcbc::Decryptor<F2>, dec, U2, 2, U2, 2);
 debug_block!(dbg_ige_enc, 210, ige::Encryptor<F2>, enc, U4, 4, U2, 2);
+debugc_block!(dbgc_ige_enc, 210, ige::Encryptor<F2>, enc, U4, 4, U2, 2);
 debug_block!(dbg_ige_dec, 210, ige::Decryptor<F2>, dec, U4, 4, U2, 2);
+debugc_block!(dbgc_ige_dec, 210, ige::Decryptor<F2>, dec, U4, 4, U2, 2);
 debug_block!(dbg_cfb_enc, 210, cfb_mode::Encryptor<E2>, enc, U2, 2, U2, 2);
+debugc_block!(dbgc_cfb_enc, 210, cfb_mode::Encryptor<E2>, enc, U2, 2, U2, 2);
 debug_block!(dbg_cfb_dec, 210, cfb_mode::Decryptor<E2>, dec, U2, 2, U2, 2);
+debugc_block!(dbgc_cfb_dec, 210, cfb_mode::Decryptor<E2>, dec, U2, 2, U2, 2);
 debug_block!(dbg_cfb8_enc, 210, cfb8::Encryptor<E2>, enc, U2, 2, U1, 1);
+debugc_block!(dbgc_cfb8_enc, 210, cfb8::Encryptor<E2>, enc, U2, 2, U1, 1);
 debug_block!(dbg_cfb8_dec, 210, cfb8::Decryptor<E2>, dec, U2, 2, U1, 1);
+debugc_block!(dbgc_cfb8_dec, 210, cfb8::Decryptor<E2>, dec, U2, 2, U1, 1);
 debug_block!(dbg_ofb_core, 210, ofb::OfbCore<E2>, enc, U2, 2, U2, 2);
+debugc_block!(dbgc_ofb_core, 210, ofb::OfbCore<E2>, enc, U2, 2, U2, 2);
 debug_bytes!(dbg_cfb_bufenc, 210, cfb_mode::BufEncryptor<E2>, encrypt, U2, 2, 1, 3);
+debugc_bytes!(dbgc_cfb_bufenc, 210, cfb_mode::BufEncryptor<E2>, encrypt, U2, 2, 1, 3);
 debug_bytes!(dbg_cfb_bufdec, 210, cfb_mode::BufDecryptor<E2>, decrypt, U2, 2, 1, 3);
+debugc_bytes!(dbgc_cfb_bufdec, 210, cfb_mode::BufDecryptor<E2>, decrypt, U2, 2, 1, 3);
 debug_core!(dbg_ctr32be_core, 210, ctr::CtrCore<UfE<U4, U1>, ctr::flavors::Ctr32BE>, u32, U4, 4);
+debugc_core!(dbgc_ctr32be_core, 210, ctr::CtrCore<UfE<U4, U1>, ctr::flavors::Ctr32BE>, u32, U4, 4);
 debug_core!(dbg_ctr32le_core, 210, ctr::CtrCore<UfE<U4, U1>, ctr::flavors::Ctr32LE>, u32, U4, 4);
+debugc_core!(dbgc_ctr32le_core, 210, ctr::CtrCore<UfE<U4, U1>, ctr::flavors::Ctr32LE>, u32, U4, 4);
 debug_core!(dbg_ctr64be_core, 210, ctr::CtrCore<UfE<U8, U1>, ctr::flavors::Ctr64BE>, u64, U8, 8);
+debugc_core!(dbgc_ctr64be_core, 210, ctr::CtrCore<UfE<U8, U1>, ctr::flavors::Ctr64BE>, u64, U8, 8);
 debug_core!(dbg_ctr64le_core, 210, ctr::CtrCore<UfE<U8, U1>, ctr::flavors::Ctr64LE>, u64, U8, 8);
+debugc_core!(dbgc_ctr64le_core, 210, ctr::CtrCore<UfE<U8, U1>, ctr::flavors::Ctr64LE>, u64, U8, 8);
 debug_core!(dbg_ctr128be_core, 210, ctr::CtrCore<UfE<U16, U1>, ctr::flavors::Ctr128BE>, u128, U16, 16);
+debugc_core!(dbgc_ctr128be_core, 210, ctr::CtrCore<UfE<U16, U1>, ctr::flavors::Ctr128BE>, u128, U16, 16);
 debug_core!(dbg_ctr128le_core, 210, ctr::CtrCore<UfE<U16, U1>, ctr::flavors::Ctr128LE>, u128, U16, 16);
+debugc_core!(dbgc_ctr128le_core, 210, ctr::CtrCore<UfE<U16, U1>, ctr::flavors::Ctr128LE>, u128, U16, 16);
 debug_core!(dbg_belt_core, 210, belt_ctr::BeltCtrCore<UfE<U16, U1>>, u128, U16, 16);
+debugc_core!(dbgc_belt_core, 210, belt_ctr::BeltCtrCore<UfE<U16, U1>>, u128, U16, 16);
 algname_case!(alg_cbc_enc, 210, cbc::Encryptor<F2>, "cbc::Encryptor<Uf>");
 algname_case!(alg_ctr64le, 210, ctr::CtrCore<UfE<U8, U1>, ctr::flavors::Ctr64LE>, "Ctr64LE<Uf>");
 algname_case!(alg_belt, 210, belt_ctr::BeltCtrCore<UfE<U16, U1>>, "BeltCtr<Uf>");
